@@ -132,15 +132,24 @@ func checkHandlerCtxProvenance(c *Ctx, p *Prog, R *BusRoles) {
 	c.Floor("C08.R2", "context arguments of handler invocations", n, 4)
 	// the dispatch function's ctx argument at each call site in PublishContext is the publish context
 	m := 0
-	var scan func(g *ssa.Function)
-	scan = func(g *ssa.Function) {
+	pubCtx := "param:" + FuncDisplay(R.PublishFn) + "." + R.PublishFn.Params[1].Name()
+	inDispatch := map[*ssa.Function]bool{}
+	for _, g := range reachFuncs(p, R.DispatchFn, PkgBus) {
+		inDispatch[g] = true
+	}
+	// call sites of the dispatch function in PublishContext, its closures and the helpers
+	// it calls or spawns (the async goroutine may be a named function)
+	for _, g := range reachFuncs(p, R.PublishFn, PkgBus) {
+		if inDispatch[g] {
+			continue
+		}
 		for _, b := range g.Blocks {
 			for _, in := range b.Instrs {
 				if call, ok := in.(*ssa.Call); ok {
 					if sc := call.Common().StaticCallee(); sc != nil && (sc == R.DispatchFn || sc.Origin() == R.DispatchFn) && len(call.Common().Args) >= 2 {
 						m++
 						os := flow.Origins(call.Common().Args[1])
-						okAll, bad := onlyOrigins(os, "param:PublishContext.ctx")
+						okAll, bad := onlyOrigins(os, pubCtx)
 						if okAll && len(os) > 0 {
 							c.Discharge("C08.R2", FuncDisplay(g)+"/dispatch-context", p.Pos(in.Pos()), "the dispatch function receives the publish context (through Observability.OnPublishStart only)")
 						} else {
@@ -150,11 +159,7 @@ func checkHandlerCtxProvenance(c *Ctx, p *Prog, R *BusRoles) {
 				}
 			}
 		}
-		for _, a := range g.AnonFuncs {
-			scan(a)
-		}
 	}
-	scan(R.PublishFn)
 	c.Floor("C08.R2", "dispatch call sites", m, 2)
 	checkPublishCtxNotNarrowed(c, p, R, "C08.R2")
 	// Publish delegates to PublishContext with a background context (documented)
